@@ -198,6 +198,13 @@ class Ev:
                 on = p.get("on", "")
                 if not is_addr and cur[0] == "agg" and p["i"] < len(cur[3]):
                     cur = cur[3][p["i"]]
+                elif not is_addr and cur[0] == "phi" and all(a[0] == "agg" and p["i"] < len(a[3]) for a in cur[1]):
+                    # projection distributes over a join of aggregates (destructured match results)
+                    alts = []
+                    for a in cur[1]:
+                        if a[3][p["i"]] not in alts:
+                            alts.append(a[3][p["i"]])
+                    cur = alts[0] if len(alts) == 1 else ("phi", tuple(alts))
                 elif not is_addr and cur[0] == "load":
                     cur = ("load", ("field", cur[1], n, on), cur[2])
                 else:
